@@ -141,7 +141,7 @@ Section Session.
     s_ops s2 = s_ops s -> s_ppub s2 = s_ppub s -> s_cur s2 = s_cur s -> s_rq s2 = s_rq s -> s_uq s2 = s_uq s ->
     s_next_id s2 = s_next_id s -> s_pwco s2 = s_pwco s -> s_pnon s2 = s_pnon s ->
     WFS s2 -> W9 cfg s2 -> s_st s2 = Connected -> s_hq s2 = [] -> s_pnon s2 = [] -> s_tmo s2 = [] -> s_pwco s2 = [] ->
-    J (r_s (apply_session cfg s2 sp)) (mkG sp (g_sub g) (if sp then g_ph g else restart_ph (g_ph g))).
+    J (r_s (apply_session cfg s2 sp)) (mkG sp (g_sub g) (sess_ph sp (g_ph g))).
   Proof.
     intros (Wst & Wpp & Wcur) HJ HPL Eops Eppub Ecur Erq Euq Enid Epw Epn HW2 H92 Hst2 Ehq Epnon Etmo Epwco.
     assert (Epp2 : s_ppub s2 = []) by congruence.
@@ -208,20 +208,21 @@ Section Session.
       - destruct (unbound_publish o pb Epb) as (pb' & U1 & U2 & U3 & U4 & U5 & U6). exists pb'. splits; auto; try congruence; try (intros p; rewrite U6; discriminate).
       - rewrite Epb in K3. destruct (op_pid o); cbn in K3; eexists; (split; [exact K3|]); cbn; splits; auto; intros p; rewrite K2; discriminate. }
     unfold DeliveryWireDefs.J in *.
-    destruct (g_ph g) as [| |pid d|pid|pid|pid|pid|pid] eqn:Eph.
+    destruct (g_ph g) as [| |pid d|pid|pid|pid|pid|pid|] eqn:Eph.
     { (* not a QoS 1/2 publish *)
       assert (Hg : forall o', getop s' i = Some o' -> pubq (op_packet o') = false).
       { intros o' Ho'. destruct (Hop o' Ho') as (o & Ho & [(_ & _ & -> & _)|[(_ & [->| ->])|(_ & _ & _ & _ & Hp)]]);
           [eapply HJ; exact Ho|eapply HJ; exact Ho|rewrite unbound_pubq; eapply HJ; exact Ho|].
         rewrite Hp. specialize (HJ o Ho). destruct (op_pid o); destruct (op_packet o); cbn in *; auto. }
-      destruct sp; exact Hg. }
+      exact Hg. }
     all: destruct HJ as [Hlt HJ]; unfold DeliveryWireDefs.JP in *; cbn [g_sub g_ph g_sp].
-    all: destruct sp; cbn [restart_ph].
+    all: destruct sp; cbn [sess_ph].
     all: (split; [fold s'; lia|]); intros o' Ho'; destruct (Hop o' Ho') as (o & Ho & Hc); destruct (HJ o Ho) as (pb & Epb & Hq & Hn & HP);
       unfold DeliveryWireDefs.PJ in HP; rewrite Eph in HP.
     (* the encoder seat holds no publish, no publish is pending *)
     all: try (exfalso; destruct HP as (Hx & _); rewrite (Wcur i Hx) in Ho; discriminate).
     all: try (exfalso; destruct HP as (Hx & _); unfold onlyppub in Hx; rewrite Wpp in Hx; exact (proj2 (Hx pid) eq_refl)).
+    all: try (exfalso; exact HP).
     (* GNot *)
     1,2: destruct HP as (Q1 & Q2 & Q3 & Q4 & Q5);
       destruct (Hnot (g_sub g) o o' pb Ho Epb Hq Q5) as (pb' & A1 & A2 & A3 & A4);
@@ -260,7 +261,7 @@ Section Session.
     set (f := fun o0 : op => o0 <| op_pubrel := Some (Pubrel (default_ack (ack_pid a))) |>).
     set (s' := s <| s_ops := update i f (s_ops s) |> <| s_hq := s_hq s ++ [i] |>).
     assert (Ho' : getop s' i = Some (f o)) by (unfold getop; cbn; apply lookup_update_eq; exact Eo).
-    unfold DeliveryWireDefs.J in *. destruct (g_ph g) as [| |pid d|pid|pid|pid|pid|pid] eqn:Eph.
+    unfold DeliveryWireDefs.J in *. destruct (g_ph g) as [| |pid d|pid|pid|pid|pid|pid|] eqn:Eph.
     { specialize (HJ o Eo). rewrite Epb in HJ. cbn in HJ. rewrite Eq in HJ. discriminate. }
     all: destruct HJ as [Hlt HJ]; destruct (HJ o Eo) as (pb0 & E0 & Hq & Hn & HP); rewrite Epb in E0; inversion E0; subst pb0;
       unfold DeliveryWireDefs.PJ in HP; rewrite Eph in HP.
@@ -275,10 +276,11 @@ Section Session.
       destruct HP as (P1 & P2 & P3 & P4). assert (Ea : ack_pid a = pid) by (apply P1; exact El).
       unfold DeliveryWireDefs.JP. rewrite Eph. split; [exact Hlt|]. intros o1 Ho1. rewrite Ho' in Ho1. inversion Ho1; subst o1.
       exists pb. splits; auto. unfold DeliveryWireDefs.PJ. rewrite Eph. splits; auto. cbn. rewrite Ea. reflexivity.
+    - destruct HP.
   Qed.
 
   Theorem pubrec_ok (s : state) g a :
-    pubrel_target s a = Some i -> J s g -> match g_ph g with GPend pid | GRel pid => ack_pid a = pid | _ => True end.
+    pubrel_target s a = Some i -> J s g -> match g_ph g with GPend pid | GRel pid => ack_pid a = pid | GAbs => True | _ => False end.
   Proof.
     unfold InboundLoop.pubrel_target. destruct (pre_connack s); [discriminate|].
     destruct (lookup (ack_pid a) (s_ppub s)) as [id|] eqn:El; [|discriminate].
@@ -286,8 +288,10 @@ Section Session.
     destruct (op_packet o) as [ | |pb| | | | | | | | | | | | ] eqn:Epb; try discriminate.
     destruct (pub_qos pb =? 2) eqn:Eq; cbn [andb]; [|discriminate]. destruct (128 <=? ack_rc a); cbn [negb]; [discriminate|].
     intros H HJ. inversion H; subst id. apply lookup_In in El.
-    unfold DeliveryWireDefs.J in HJ. destruct (g_ph g) as [| |pid d|pid|pid|pid|pid|pid] eqn:Eph; try exact I.
-    all: destruct HJ as [_ HJ]; destruct (HJ o Eo) as (pb0 & _ & _ & _ & HP); unfold DeliveryWireDefs.PJ in HP; rewrite Eph in HP;
-      destruct HP as (P1 & _); apply P1; exact El.
+    unfold DeliveryWireDefs.J in HJ. destruct (g_ph g) as [| |pid d|pid|pid|pid|pid|pid|] eqn:Eph; try exact I.
+    all: destruct HJ as [_ HJ]; destruct (HJ o Eo) as (pb0 & _ & _ & _ & HP); unfold DeliveryWireDefs.PJ in HP; rewrite Eph in HP.
+    all: try (destruct HP as (P1 & _); apply P1; exact El).
+    all: try exact HP.
+    all: repeat match goal with H : _ /\ _ |- _ => destruct H end; match goal with H : noppub _ _ |- _ => exact (H _ El) end.
   Qed.
 End Session.
